@@ -31,8 +31,10 @@ Definition round_he (x : Q) : Z :=
 (** Python 3 [round(x, 2)] (exact decimal rounding, ties to even). *)
 Definition round2 (x : Q) : Q := Qred (inject_Z (round_he (x * 100)) / 100).
 
-(** [np.isclose(x, 0.0)] : |x| <= atol = 1e-8. *)
-Definition isclose0 (x : Q) : bool := Qle_bool (Qabs x) (1 # 100000000).
+(** [np.isclose(x, 0.0)] : |x| <= atol + rtol * 0, where atol is the binary64 number nearest
+    to 1e-8, i.e. 3022314549036573 / 2^78 (slightly above 10^-8). *)
+Definition atol8 : Q := 3022314549036573 # 302231454903657293676544.
+Definition isclose0 (x : Q) : bool := Qle_bool (Qabs x) atol8.
 
 (** [np.copysign(1, x)] for a non-NaN x that is not -0.0. *)
 Definition sign1 (x : Q) : Z := if Qle_bool 0 x then 1%Z else (-1)%Z.
